@@ -1146,10 +1146,15 @@ func noRecode(c *core.Ctx) {
 				if rn := astx.RecvNamed(funcOf(info, fd)); rn != nil && rn.Obj().Name() == "compressionPool" {
 					inMemory = true
 				}
-				for _, a := range src.Args {
-					if t := info.TypeOf(a); t != nil && astx.TypeIs(t, "bytes", "Buffer") && sf != nil && (sf.Name() == "ReadFrom" || sf.Name() == "Copy") {
-						inMemory = true
-					}
+				memArg := func(a ast.Expr) bool {
+					t := info.TypeOf(a)
+					return (t != nil && astx.TypeIs(derefType(t), "bytes", "Buffer")) || astx.IsPkgVar(info, a, "io", "Discard")
+				}
+				if sf != nil && sf.Name() == "ReadFrom" && len(src.Args) == 1 && memArg(src.Args[0]) {
+					inMemory = true
+				}
+				if sf != nil && sf.Name() == "Copy" && len(src.Args) == 2 && memArg(src.Args[0]) && memArg(src.Args[1]) {
+					inMemory = true // both ends in memory; a copy to the transport writer can fail with a coded error
 				}
 				if inMemory {
 					sites++
